@@ -251,6 +251,12 @@ class HTTP2Connection(ConnectionInterface):
         # to the h2 state. If that does not happen it must not be reset either.
         self._unsent_stream_ids.add(stream_id)
 
+        if self._connection_error:
+            # A request that was admitted earlier, and has been waiting for its
+            # turn since, must not be encoded either. It is queued again.
+            self._request_count -= 1
+            raise ConnectionNotAvailable()
+
         # The h2 package does not check outgoing methods, targets, header names
         # or header values for illegal characters. Apply the same validation as
         # for HTTP/1.1, before anything is encoded or written.
